@@ -461,13 +461,13 @@ Definition H_REQUIRED_ATTRS : list (str * (h5attr -> result status)) :=
   [(K "format-url", hv_format_url); (K "format-version", hv_format_version); (K "type", hv_type);
    (K "shape", hv_shape); (K "nnz", hv_nnz); (K "generated-by", hv_generated_by); (K "id", hv_id);
    (K "creation-date", hv_creation_date)].
-Definition P (a b : string) : list str := [K a; K b].
+Definition P2 (a b : string) : list str := [K a; K b].
 Definition P3 (a b c : string) : list str := [K a; K b; K c].
 Definition H_REQUIRED_GROUPS : list (list str) :=
-  [[K "observation"]; [K "sample"]; P "observation" "matrix"; P "sample" "matrix"].
+  [[K "observation"]; [K "sample"]; P2 "observation" "matrix"; P2 "sample" "matrix"].
 Definition H_REQUIRED_DATASETS : list (list str) :=
-  [P "observation" "ids"; P3 "observation" "matrix" "data"; P3 "observation" "matrix" "indices";
-   P3 "observation" "matrix" "indptr"; P "sample" "ids"; P3 "sample" "matrix" "data";
+  [P2 "observation" "ids"; P3 "observation" "matrix" "data"; P3 "observation" "matrix" "indices";
+   P3 "observation" "matrix" "indptr"; P2 "sample" "ids"; P3 "sample" "matrix" "data";
    P3 "sample" "matrix" "indices"; P3 "sample" "matrix" "indptr"].
 
 Fixpoint run_attrs (f : h5file) (l : list (str * (h5attr -> result status))) (idx : Z) : result (list msg) :=
@@ -506,7 +506,7 @@ Definition node_len (n : h5node) : nat :=
 
 (* _valid_hdf5_ids, 239-248 *)
 Definition hv_ids (f : h5file) (ax : Z) : result (list msg) :=
-  match hfind (h_root f) (P (axis_name ax) "ids") with
+  match hfind (h_root f) (P2 (axis_name ax) "ids") with
   | None => ROk []
   | Some (HGroup _) => RErr E_TYPE
   | Some (HStrs l) => ROk (if str_dup l then [[HMSG_DUP; ax]] else [])
@@ -520,7 +520,8 @@ Fixpoint decreasing (l : list Z) : bool :=
   | _ => false
   end.
 
-(* _valid_hdf5_matrix, 250-283; n_vectors, n_positions from the shape *)
+(* _valid_hdf5_matrix, 250-283; n_vectors, n_positions from the shape, times SCALE (h5py
+   hands back the shape as the array it was stored as, possibly of floats) *)
 Definition hv_matrix (f : h5file) (ax : Z) (n_vec n_pos : Z) : result (list msg) :=
   let name := axis_name ax in
   match hfind (h_root f) (P3 name "matrix" "data"), hfind (h_root f) (P3 name "matrix" "indices"),
@@ -528,14 +529,14 @@ Definition hv_matrix (f : h5file) (ax : Z) (n_vec n_pos : Z) : result (list msg)
   | Some d, Some (HInts indices), Some (HInts indptr) =>
       let n_data := Z.of_nat (node_len d) in
       if negb (Z.of_nat (length indices) =? n_data) then ROk [[HMSG_MATRIX; ax; 0]]
-      else if negb (Z.of_nat (length indptr) =? n_vec + 1) then ROk [[HMSG_MATRIX; ax; 1]]
+      else if negb (SCALE * Z.of_nat (length indptr) =? n_vec + SCALE) then ROk [[HMSG_MATRIX; ax; 1]]
       else
         match indptr with
         | [] => RErr E_INDEX
         | p0 :: _ =>
             if negb (p0 =? 0) || negb (last indptr 0 =? n_data) then ROk [[HMSG_MATRIX; ax; 2]]
             else if decreasing indptr then ROk [[HMSG_MATRIX; ax; 3]]
-            else if (0 <? n_data) && existsb (fun i => (i <? 0) || (n_pos <=? i)) indices
+            else if (0 <? n_data) && existsb (fun i => (i <? 0) || (n_pos <=? SCALE * i)) indices
                  then ROk [[HMSG_MATRIX; ax; 4]]
                  else ROk []
         end
@@ -545,27 +546,41 @@ Definition hv_matrix (f : h5file) (ax : Z) (n_vec n_pos : Z) : result (list msg)
 
 (* _valid_hdf5_metadata_v210, 299-318: the first complaint *)
 Definition hv_metadata_v210 (f : h5file) : result (list msg) :=
-  let has p := match hfind (h_root f) p with Some _ => true | None => false end in
-  if negb (has (P "observation" "metadata")) then ROk [[HMSG_MD; 0]]
-  else if negb (has (P "observation" "group-metadata")) then ROk [[HMSG_MD; 1]]
-  else if negb (has (P "sample" "metadata")) then ROk [[HMSG_MD; 2]]
-  else if negb (has (P "sample" "group-metadata")) then ROk [[HMSG_MD; 3]]
+  let has q := match hfind (h_root f) q with Some _ => true | None => false end in
+  if negb (has (P2 "observation" "metadata")) then ROk [[HMSG_MD; 0]]
+  else if negb (has (P2 "observation" "group-metadata")) then ROk [[HMSG_MD; 1]]
+  else if negb (has (P2 "sample" "metadata")) then ROk [[HMSG_MD; 2]]
+  else if negb (has (P2 "sample" "group-metadata")) then ROk [[HMSG_MD; 3]]
   else
-    match hfind (h_root f) (P "observation" "ids"), hfind (h_root f) (P "sample" "ids") with
+    match hfind (h_root f) (P2 "observation" "ids"), hfind (h_root f) (P2 "sample" "ids") with
     | Some oi, Some si =>
         let bad n g := match g with
                        | Some (HGroup ch) => existsb (fun p => negb (node_len (snd p) =? n)%nat) ch
                        | _ => false
                        end in
-        match hfind (h_root f) (P "observation" "metadata"), hfind (h_root f) (P "sample" "metadata") with
+        match hfind (h_root f) (P2 "observation" "metadata"), hfind (h_root f) (P2 "sample" "metadata") with
         | Some (HGroup _), Some (HGroup _) =>
-            if bad (node_len oi) (hfind (h_root f) (P "observation" "metadata")) then ROk [[HMSG_MD; 4]]
-            else if bad (node_len si) (hfind (h_root f) (P "sample" "metadata")) then ROk [[HMSG_MD; 5]]
+            if bad (node_len oi) (hfind (h_root f) (P2 "observation" "metadata")) then ROk [[HMSG_MD; 4]]
+            else if bad (node_len si) (hfind (h_root f) (P2 "sample" "metadata")) then ROk [[HMSG_MD; 5]]
             else ROk []
         | _, _ => RErr E_ATTR                 (* a dataset has no items() *)
         end
     | _, _ => RErr E_KEY
     end.
+
+(* 178-211: shape against the ID datasets and the two matrices; n_obs, n_samp times SCALE *)
+Definition shape_part (f : h5file) (n_obs n_samp : Z) : result (list msg) :=
+  let oi := hfind (h_root f) (P2 "observation" "ids") in
+  let si := hfind (h_root f) (P2 "sample" "ids") in
+  match oi, si with
+  | Some o, Some s' =>
+      let m3 := if negb (n_obs =? SCALE * Z.of_nat (node_len o)) then [[HMSG_NOBS]] else [] in
+      let m4 := if negb (n_samp =? SCALE * Z.of_nat (node_len s')) then [[HMSG_NSAMP]] else [] in
+      x0 <- hv_matrix f 0 n_obs n_samp ;;
+      x1 <- hv_matrix f 1 n_samp n_obs ;;
+      ROk (m3 ++ m4 ++ x0 ++ x1)
+  | _, _ => RErr E_TYPE              (* a message is appended, then len(None) raises *)
+  end.
 
 (* _validate_hdf5, 119-237 with format_version = '2.1' (the default of run).
    Result: (valid_table, report lines).  Note that the lines appended after the
@@ -578,27 +593,11 @@ Definition validate_hdf5_report (f : h5file) : result (bool * list msg) :=
   i1 <- hv_ids f 1 ;;
   s <- match aget (h_attrs f) (K "shape") with
        | None => ROk [[HMSG_NO_SHAPE]]
-       | Some (AInts [n_obs; n_samp]) | Some (AFlts [n_obs; n_samp]) =>
-           let oi := hfind (h_root f) (P "observation" "ids") in
-           let si := hfind (h_root f) (P "sample" "ids") in
-           let m1 := match oi with None => [[HMSG_NO_OIDS]] | Some _ => [] end in
-           let m2 := match si with None => [[HMSG_NO_SIDS]] | Some _ => [] end in
-           match oi, si with
-           | Some o, Some s' =>
-               let scale := match aget (h_attrs f) (K "shape") with Some (AFlts _) => SCALE | _ => 1 end in
-               let m3 := if negb (n_obs =? scale * Z.of_nat (node_len o)) then [[HMSG_NOBS]] else [] in
-               let m4 := if negb (n_samp =? scale * Z.of_nat (node_len s')) then [[HMSG_NSAMP]] else [] in
-               match aget (h_attrs f) (K "shape") with
-               | Some (AInts _) =>
-                   x0 <- hv_matrix f 0 n_obs n_samp ;;
-                   x1 <- hv_matrix f 1 n_samp n_obs ;;
-                   ROk (m1 ++ m2 ++ m3 ++ m4 ++ x0 ++ x1)
-               | _ => RErr E_UNMODELLED
-               end
-           | _, _ => RErr E_TYPE              (* len(None) *)
-           end
+       | Some (AInts [a0; b0]) => shape_part f (SCALE * a0) (SCALE * b0)
+       | Some (AFlts [a0; b0]) => shape_part f a0 b0
        | Some (AInts _) | Some (AFlts _) => RErr E_VALUE
-       | Some _ => RErr E_TYPE
+       | Some (AInt _) | Some (AFlt _) => RErr E_TYPE
+       | Some (AStr _) => RErr E_UNMODELLED
        end ;;
   v <- match aget (h_attrs f) (K "format-version") with
        | None => ROk []
